@@ -830,7 +830,7 @@ def exec_hostile_server(base, case, chooser=None):
 
         def on_connect(s):
             st['server'] = st['server'] or s
-            if k == 1 and entry['pre'] and len(loop.tcp_conns) == 1:
+            if k == 1 and entry['pre'] and len(loop.tcp_conns) == 1 and st['server'] is s:
                 begin_hostile(s)
                 s.perform(entry['pre'])
 
